@@ -76,7 +76,9 @@ def matchE (env : Env) : Nat → PE → Atom → Bool → Nat → Res
     | .star a =>
       match matchE env f a at_ la p with
       | none => some (p, [])
-      | some (p1, k1) => some (rep env f a at_ la p1 k1)
+      | some (p1, k1) =>
+        let (p', acc) := rep env f a at_ la p1 [k1]
+        some (p', acc.reverse.flatten)
     | .plus a =>
       match matchE env f a at_ la p with
       | none => none
@@ -84,7 +86,9 @@ def matchE (env : Env) : Nat → PE → Atom → Bool → Nat → Res
         let p2 := skip env f at_ p1
         match matchE env f a at_ la p2 with
         | none => some (p2, k1)
-        | some (p3, k3) => some (rep env f a at_ la p3 (k1 ++ k3))
+        | some (p3, k3) =>
+          let (p', acc) := rep env f a at_ la p3 [k3, k1]
+          some (p', acc.reverse.flatten)
     | .neg a =>
       match matchE env f a at_ true p with
       | some _ => none
@@ -95,14 +99,15 @@ def matchE (env : Env) : Nat → PE → Atom → Bool → Nat → Res
       | none => none
     | .ref n => callRule env f n at_ la p
 
-/-- `(skip a)*` after a first `a` -/
-def rep (env : Env) : Nat → PE → Atom → Bool → Nat → List Pair → Nat × List Pair
-  | 0, _, _, _, p, ks => (p, ks)
-  | f + 1, a, at_, la, p, ks =>
+/-- `(skip a)*` after a first `a`; `acc` holds the pairs of the iterations so far, most recent first
+(reversed chunks), so that a long statement list is collected in linear time -/
+def rep (env : Env) : Nat → PE → Atom → Bool → Nat → List (List Pair) → Nat × List (List Pair)
+  | 0, _, _, _, p, acc => (p, acc)
+  | f + 1, a, at_, la, p, acc =>
     let p1 := skip env f at_ p
     match matchE env f a at_ la p1 with
-    | none => (p, ks)
-    | some (p2, k2) => if p2 = p then (p, ks) else rep env f a at_ la p2 (ks ++ k2)
+    | none => (p, acc)
+    | some (p2, k2) => if p2 = p then (p, acc) else rep env f a at_ la p2 (k2 :: acc)
 
 /-- implicit whitespace / comments between sequence and repetition elements -/
 def skip (env : Env) : Nat → Atom → Nat → Nat
